@@ -26,6 +26,17 @@ CLAIMED = {
          "_dict_arithmetic.py/_pubomatrix.py/_values.py; harness. Uniqueness of the canonical form is checked by the oracle "
          "(Moebius / Walsh inversion on the implementation), not yet a Coq theorem. Floats only on dyadic values.",
     technique="Coq proof (induction over expression trees) + model/implementation correspondence", ref="§5 C05"),
+ "C14": dict(
+    text="Coq theorems C14_init/C14_step/C14_reachable: the bookkeeping invariant (reported variables and degree are upper "
+         "bounds, |variables| = num_binary_variables, mapping/reverse_mapping mutually inverse bijections between exactly the "
+         "reported variables and 0..n-1, next label = n) holds after every finite history of edits (item assignment incl. zero, "
+         "+=, in-place + - * ** /, update, clear, refresh, copy) on every kind; C14_refresh: refresh keeps the function and makes "
+         "the bookkeeping exact. Tied to /repo by comparing the full bookkeeping after every edit of random histories, plus an "
+         "implementation-side check of the property (incl. labels of to_qubo/to_quso/to_pubo/to_puso).",
+    note="Trusted: Coq kernel + vm_compute; no axioms; hand-written model of _pubomatrix.py/_bo_parentclass.py/_dict_arithmetic.py "
+         "(after the repairs D1, D2, D9, D11 listed in known_findings.txt); harness. The ancilla-name clause is carried by C02/C03, "
+         "the reduced-form label clause by C01.",
+    technique="Coq proof (invariant by induction over edit histories) + model/implementation correspondence", ref="§5 C14"),
 }
 NA_REASON = "check not built yet in this round; see DESIGN.md §8 (order of work)"
 
